@@ -13,6 +13,12 @@ Msg.vos Msg.vok Msg.required_vos: Msg.v Base.vos Fields.vos SrcFacts.vos
 SrcDecisions.vo SrcDecisions.glob SrcDecisions.v.beautified SrcDecisions.required_vo: SrcDecisions.v Base.vo Fields.vo SrcFacts.vo Msg.vo
 SrcDecisions.vio: SrcDecisions.v Base.vio Fields.vio SrcFacts.vio Msg.vio
 SrcDecisions.vos SrcDecisions.vok SrcDecisions.required_vos: SrcDecisions.v Base.vos Fields.vos SrcFacts.vos Msg.vos
+Decoder.vo Decoder.glob Decoder.v.beautified Decoder.required_vo: Decoder.v Base.vo Fields.vo SrcFacts.vo Msg.vo
+Decoder.vio: Decoder.v Base.vio Fields.vio SrcFacts.vio Msg.vio
+Decoder.vos Decoder.vok Decoder.required_vos: Decoder.v Base.vos Fields.vos SrcFacts.vos Msg.vos
+Encoder.vo Encoder.glob Encoder.v.beautified Encoder.required_vo: Encoder.v Base.vo Fields.vo SrcFacts.vo Msg.vo
+Encoder.vio: Encoder.v Base.vio Fields.vio SrcFacts.vio Msg.vio
+Encoder.vos Encoder.vok Encoder.required_vos: Encoder.v Base.vos Fields.vos SrcFacts.vos Msg.vos
 Cache.vo Cache.glob Cache.v.beautified Cache.required_vo: Cache.v Base.vo Fields.vo SrcFacts.vo Msg.vo SrcDecisions.vo
 Cache.vio: Cache.v Base.vio Fields.vio SrcFacts.vio Msg.vio SrcDecisions.vio
 Cache.vos Cache.vok Cache.required_vos: Cache.v Base.vos Fields.vos SrcFacts.vos Msg.vos SrcDecisions.vos
@@ -31,3 +37,12 @@ Properties_C06.vos Properties_C06.vok Properties_C06.required_vos: Properties_C0
 Properties_C18.vo Properties_C18.glob Properties_C18.v.beautified Properties_C18.required_vo: Properties_C18.v Base.vo Fields.vo SrcFacts.vo Msg.vo SrcDecisions.vo Cache.vo CacheSpec.vo CacheProofs.vo
 Properties_C18.vio: Properties_C18.v Base.vio Fields.vio SrcFacts.vio Msg.vio SrcDecisions.vio Cache.vio CacheSpec.vio CacheProofs.vio
 Properties_C18.vos Properties_C18.vok Properties_C18.required_vos: Properties_C18.v Base.vos Fields.vos SrcFacts.vos Msg.vos SrcDecisions.vos Cache.vos CacheSpec.vos CacheProofs.vos
+Properties_C03.vo Properties_C03.glob Properties_C03.v.beautified Properties_C03.required_vo: Properties_C03.v Base.vo Fields.vo SrcFacts.vo Msg.vo Decoder.vo Encoder.vo
+Properties_C03.vio: Properties_C03.v Base.vio Fields.vio SrcFacts.vio Msg.vio Decoder.vio Encoder.vio
+Properties_C03.vos Properties_C03.vok Properties_C03.required_vos: Properties_C03.v Base.vos Fields.vos SrcFacts.vos Msg.vos Decoder.vos Encoder.vos
+Properties_C01.vo Properties_C01.glob Properties_C01.v.beautified Properties_C01.required_vo: Properties_C01.v Base.vo Fields.vo SrcFacts.vo Msg.vo Decoder.vo Encoder.vo
+Properties_C01.vio: Properties_C01.v Base.vio Fields.vio SrcFacts.vio Msg.vio Decoder.vio Encoder.vio
+Properties_C01.vos Properties_C01.vok Properties_C01.required_vos: Properties_C01.v Base.vos Fields.vos SrcFacts.vos Msg.vos Decoder.vos Encoder.vos
+Properties_C02.vo Properties_C02.glob Properties_C02.v.beautified Properties_C02.required_vo: Properties_C02.v Base.vo Fields.vo SrcFacts.vo Msg.vo Decoder.vo Encoder.vo
+Properties_C02.vio: Properties_C02.v Base.vio Fields.vio SrcFacts.vio Msg.vio Decoder.vio Encoder.vio
+Properties_C02.vos Properties_C02.vok Properties_C02.required_vos: Properties_C02.v Base.vos Fields.vos SrcFacts.vos Msg.vos Decoder.vos Encoder.vos
